@@ -92,10 +92,18 @@ class StubRNG(object):
         self.stream, self.draws, self.inc = stream, draws, 7
         self.bit_generator = BitGen(self)
 
+    override = None      # replay only: values for the next uniform draw
+
     def _name(self, what):
         n = 'rng%d_%d_%s' % (self.stream, self.draws, what)
         self.draws += 1
         return n
+
+    def value_of(self, draw, what, i):
+        """the i-th element of draw number `draw` of this stream"""
+        if self.override is not None and what == 'u':
+            return self.override[i]
+        return W.real('rng%d_%d_%s_%d' % (self.stream, draw, what, i))
 
     def _reals(self, what, size, lo=None, hi=None):
         np = W.np
@@ -111,6 +119,9 @@ class StubRNG(object):
         base = self._name(what)
         vals = []
         for i in range(n):
+            if self.override is not None and what == 'u':
+                vals.append(self.override[i])
+                continue
             v = W.real('%s_%d' % (base, i))
             if lo is not None:
                 W.assume(v >= lo)
